@@ -1,10 +1,18 @@
 //! C23 — user actions complete or cancel exactly once and escrow always goes home.
 //!
-//! Observed: every deposit / withdrawal / shift / order account of the exchange workload after every
-//! transaction (state read from the account header), escrow token accounts, owner ATAs, lamports,
-//! market accounts and vaults. Oracle: the lifecycle automaton
+//! Observed: every deposit / withdrawal / shift / order / GLV-deposit / GLV-withdrawal / GLV-shift
+//! account of the exchange workload after every transaction (state read from the account header),
+//! escrow token accounts, owner ATAs, lamports, market accounts, vaults, the GLV account, the GLV
+//! token supply and the GLV's market-token vaults. Oracle: the lifecycle automaton
 //!   (absent) → Pending → {Completed | Cancelled} → (closed)
 //! plus the closing / cancelling rules stated in the property.
+//!
+//! GLV shifts are keeper-owned (`instructions/glv/shift.rs`): the action's owner is the GLV account,
+//! nothing is escrowed, `close_glv_shift` is ORDER_KEEPER-only, and the *funder* (the keeper that
+//! created and paid for the shift; it is the recorded rent receiver) may close it in any state
+//! ("Allow the funder to close the GLV shift even if it has not reached a final state"). So for a
+//! GLV shift the funder plays the owner's part, "a keeper" is an ORDER_KEEPER that is not the funder,
+//! and the rent + unused execution fee go home to the funder.
 use crate::sim::{action_state, ActKind, ActionRec, Op, Sim, StepRec, Who};
 use crate::world::{exchange::load, World};
 use anchor_lang::prelude::Pubkey;
@@ -13,7 +21,7 @@ use gmsol_store::states::Market;
 use gmsol_utils::action::ActionState;
 use hostsvm::{token, Svm};
 use strum::IntoEnumIterator;
-use vcommon::{json, monitor::run_shards, Args, Monitor};
+use vcommon::{json, monitor::{guard, run_shards}, Args, Monitor};
 
 /// Stored (committed) market state: all pools, clocks and the other-state block.
 /// Names of the components of `market_semantic` that differ.
@@ -138,7 +146,7 @@ fn check_step(m: &mut Monitor, c: &Ctx, rec: &StepRec, last: &mut Vec<Option<Act
             if pre != Some(ActionState::Pending) {
                 m.violation(
                     "C23:execute:succeeded_on_non_pending_action",
-                    c.wit(json!({"action": format!("{:?}", a.addr), "pre": st(pre), "now": st(now)})),
+                    c.wit(json!({"action": format!("{:?}", a.addr), "kind": kind_name(a), "pre": st(pre), "now": st(now)})),
                 );
             }
             if now == Some(ActionState::Cancelled) {
@@ -178,7 +186,32 @@ fn check_step(m: &mut Monitor, c: &Ctx, rec: &StepRec, last: &mut Vec<Option<Act
                     if tok(&rec.pre, e) != tok(&w.svm, e) {
                         m.violation(
                             "C23:execute:failed_execution_did_not_return_escrow",
-                            c.wit(json!({"action": format!("{:?}", a.addr), "mint": format!("{mint}"), "pre": tok(&rec.pre, e), "post": tok(&w.svm, e)})),
+                            c.wit(json!({"action": format!("{:?}", a.addr), "kind": kind_name(a), "mint": format!("{mint}"), "pre": tok(&rec.pre, e), "post": tok(&w.svm, e)})),
+                        );
+                    }
+                }
+                // the GLV is untouched as well: account (market-token balances, last shift time, config),
+                // GLV token supply, and the market tokens it holds
+                let glv = &sim.glv;
+                if rec.pre.get(&glv.glv).map(|x| &x.data) != w.svm.get(&glv.glv).map(|x| &x.data) {
+                    m.violation(
+                        "C23:execute:failed_execution_changed_glv_account",
+                        c.wit(json!({"action": format!("{:?}", a.addr), "kind": kind_name(a), "diff": glv_diff(&rec.pre, &w.svm, &glv.glv)})),
+                    );
+                }
+                if token::mint_supply(&rec.pre, &glv.glv_token) != token::mint_supply(&w.svm, &glv.glv_token) {
+                    m.violation(
+                        "C23:execute:failed_execution_changed_glv_token_supply",
+                        c.wit(json!({"action": format!("{:?}", a.addr), "kind": kind_name(a),
+                            "pre": token::mint_supply(&rec.pre, &glv.glv_token), "post": token::mint_supply(&w.svm, &glv.glv_token)})),
+                    );
+                }
+                for mi in &sim.glv_markets {
+                    let v = sim.glv_vault_of(*mi);
+                    if tok(&rec.pre, &v) != tok(&w.svm, &v) {
+                        m.violation(
+                            "C23:execute:failed_execution_changed_glv_vault_balance",
+                            c.wit(json!({"action": format!("{:?}", a.addr), "kind": kind_name(a), "market": w.markets[*mi].name, "pre": tok(&rec.pre, &v), "post": tok(&w.svm, &v)})),
                         );
                     }
                 }
@@ -187,6 +220,14 @@ fn check_step(m: &mut Monitor, c: &Ctx, rec: &StepRec, last: &mut Vec<Option<Act
             }
         } else if let Some(Err((e, _))) = &rec.result {
             m.count(&format!("hard_failed_execution_{}", kind_name(a)));
+            if e.is_panic() {
+                // a panic aborts the transaction (pre-state restored); the property does not forbid it
+                m.count("panics");
+                m.count(&format!("panic_in_execution_of_{}_{}", st(pre), kind_name(a)));
+                if std::env::var("VERIF_ERRSTAT").is_ok() {
+                    eprintln!("PANIC shard {} step {} {:?} pre={} :: {e:?}\n  history: {:#?}", c.shard, c.step, rec.op, st(pre), sim.history);
+                }
+            }
             if pre != Some(ActionState::Pending) {
                 m.count(&format!("reexecution_of_{}_{}_rejected", st(pre), kind_name(a)));
                 if std::env::var("VERIF_ERRSTAT").is_ok() {
@@ -203,8 +244,10 @@ fn check_step(m: &mut Monitor, c: &Ctx, rec: &StepRec, last: &mut Vec<Option<Act
         if rec.ok() {
             m.eval();
             m.count(&format!("close_ok_by_{who:?}_{}", st(pre)));
+            if a.kind.is_glv() {
+                m.count(&format!("close_ok_{}_by_{who:?}_{}", kind_name(a), st(pre)));
+            }
             m.nontrivial(format!("close:{}:{:?}:{}", kind_name(a), who, st(pre)).as_bytes());
-            let executor_is_owner = *who == Who::Owner || (a.is_position_cut && false);
             match who {
                 Who::Stranger => m.violation(
                     "C23:close:stranger_closed_an_action",
@@ -224,8 +267,25 @@ fn check_step(m: &mut Monitor, c: &Ctx, rec: &StepRec, last: &mut Vec<Option<Act
                     let pre_amt = tok(&rec.pre, e);
                     let post_amt = tok(&w.svm, e);
                     lamports_home += rec.pre.lamports(e) - w.svm.lamports(e);
-                    let ata = token::ata(&a.owner, mint);
-                    let gained = tok(&w.svm, &ata) as i128 - tok(&rec.pre, &ata) as i128;
+                    let ata = sim.home_ata(&a.owner, mint);
+                    let mut gained = tok(&w.svm, &ata) as i128 - tok(&rec.pre, &ata) as i128;
+                    // Orders may name a receiver other than the owner. Pending / cancelled: everything in
+                    // escrow is what the owner paid in and goes home to the owner. Completed: escrows hold
+                    // the outputs, which go to the receiver (any pay-in remainder still to the owner).
+                    let receiver = if a.kind == ActKind::Order { crate::sim::order_receiver(&rec.pre, &a.addr).filter(|r| *r != a.owner) } else { None };
+                    if let Some(r) = receiver {
+                        let rata = sim.home_ata(&r, mint);
+                        let r_gained = tok(&w.svm, &rata) as i128 - tok(&rec.pre, &rata) as i128;
+                        m.count(&format!("close_of_order_with_other_receiver_{}", st(pre)));
+                        if pre == Some(ActionState::Completed) {
+                            gained += r_gained;
+                        } else if r_gained != 0 {
+                            m.violation(
+                                "C23:close:escrow_of_unexecuted_order_sent_to_receiver",
+                                c.wit(json!({"action": format!("{:?}", a.addr), "mint": format!("{mint}"), "escrow_before": pre_amt, "receiver_gained": r_gained.to_string(), "pre_state": st(pre)})),
+                            );
+                        }
+                    }
                     if post_amt != 0 || gained != pre_amt as i128 {
                         m.violation(
                             "C23:close:escrow_not_returned_to_owner",
@@ -234,18 +294,23 @@ fn check_step(m: &mut Monitor, c: &Ctx, rec: &StepRec, last: &mut Vec<Option<Act
                     }
                     if pre_amt > 0 {
                         m.count("escrow_tokens_returned_on_close");
+                        if a.kind.is_glv() {
+                            let what = if *mint == sim.glv.glv_token { "glv_tokens" } else if w.markets.iter().any(|x| x.market_token == *mint) { "market_tokens" } else { "pool_tokens" };
+                            m.count(&format!("escrow_{what}_returned_on_close_{}", kind_name(a)));
+                        }
                     }
                 }
-                // rent + unused execution fee go to the owner (rent receiver); position-cut orders were
-                // funded by the keeper, so there the receiver is the keeper.
+                // rent + unused execution fee go to the owner (rent receiver; the funder for a GLV shift);
+                // position-cut orders were funded by the keeper, so there the receiver is the keeper.
                 if !a.is_position_cut {
-                    let gained = w.svm.lamports(&a.owner) as i128 - rec.pre.lamports(&a.owner) as i128;
-                    let ok = if executor_is_owner { gained == lamports_home as i128 } else { gained == lamports_home as i128 };
-                    if !ok {
+                    let gained = w.svm.lamports(&a.rent_receiver) as i128 - rec.pre.lamports(&a.rent_receiver) as i128;
+                    if gained != lamports_home as i128 {
                         m.violation(
                             "C23:close:lamports_not_returned_to_owner",
-                            c.wit(json!({"action": format!("{:?}", a.addr), "owner_gained": gained.to_string(), "action_and_escrow_lamports": lamports_home, "who": format!("{who:?}")})),
+                            c.wit(json!({"action": format!("{:?}", a.addr), "kind": kind_name(a), "owner_gained": gained.to_string(), "action_and_escrow_lamports": lamports_home, "who": format!("{who:?}")})),
                         );
+                    } else if a.kind.is_glv() {
+                        m.count(&format!("lamports_home_on_close_{}", kind_name(a)));
                     }
                 }
             } else {
@@ -253,6 +318,9 @@ fn check_step(m: &mut Monitor, c: &Ctx, rec: &StepRec, last: &mut Vec<Option<Act
             }
         } else if rec.result.is_some() {
             m.count(&format!("close_rejected_by_{who:?}_{}", st(pre)));
+            if a.kind.is_glv() {
+                m.count(&format!("close_rejected_{}_by_{who:?}_{}", kind_name(a), st(pre)));
+            }
             if *who == Who::Stranger || (*who == Who::Keeper && pre == Some(ActionState::Pending)) {
                 m.eval();
                 m.nontrivial(format!("close_denied:{}:{:?}:{}", kind_name(a), who, st(pre)).as_bytes());
@@ -280,19 +348,44 @@ fn kind_name(a: &ActionRec) -> &'static str {
                 "order"
             }
         }
+        ActKind::GlvDeposit => "glv_deposit",
+        ActKind::GlvWithdrawal => "glv_withdrawal",
+        ActKind::GlvShift => "glv_shift",
     }
+}
+
+/// Which documented parts of the GLV account differ.
+fn glv_diff(a: &Svm, b: &Svm, glv: &Pubkey) -> Vec<String> {
+    let (Some(x), Some(y)) = (load::<gmsol_store::states::Glv>(a, glv), load::<gmsol_store::states::Glv>(b, glv)) else { return vec!["missing".into()] };
+    let mut out = vec![];
+    if x.shift_last_executed_at() != y.shift_last_executed_at() {
+        out.push(format!("shift_last_executed_at: {} -> {}", x.shift_last_executed_at(), y.shift_last_executed_at()));
+    }
+    for mt in x.market_tokens() {
+        let (p, q) = (x.market_config(&mt).map(|c| c.balance()), y.market_config(&mt).map(|c| c.balance()));
+        if p != q {
+            out.push(format!("balance of {mt}: {p:?} -> {q:?}"));
+        }
+    }
+    if out.is_empty() {
+        out.push("other bytes".into());
+    }
+    out
 }
 
 pub fn run(args: &Args) -> Option<i32> {
     let mut mon = Monitor::new(
         args,
-        "random multi-market histories (see sim.rs) with create / execute (throwing and non-throwing) / close by owner, \
-         keeper and stranger, double executions, stale prices and expired requests, through the real store \
-         instructions in hostsvm; oracle = lifecycle automaton + close/cancel rules checked after every transaction. \
-         non-trivial = an observed action state transition, a soft-failed execution, or a close attempt by each party; \
-         distinct = (action kind, pre state, post state / party, operation)",
+        "random multi-market histories (see sim.rs) over deposits, withdrawals, shifts, orders, position cuts (liquidation / ADL) \
+         and GLV deposits / withdrawals / shifts (a GLV over the three SOL/USDC markets) with create / execute (throwing and \
+         non-throwing) / close by owner, keeper and stranger, double executions, unreachable minimum outputs, stale prices and \
+         expired requests, through the real store instructions in hostsvm; oracle = lifecycle automaton + close/cancel rules \
+         checked after every transaction. non-trivial = an observed action state transition, a soft-failed execution, or a \
+         close attempt by each party; distinct = (action kind, pre state, post state / party, operation)",
     );
-    mon.assume("GLV actions are driven by the C45 monitor, not here");
+    mon.assume("GLV shifts are keeper-owned: the funder (creating ORDER_KEEPER, recorded rent receiver) plays the owner's part and may close in any state; 'a keeper' is an ORDER_KEEPER that did not fund the shift; a GLV shift escrows nothing, so only its lamports go home");
+    mon.assume("a failed GLV execution must leave the GLV account (byte-identical), the GLV token supply and the GLV's market-token vaults unchanged, in addition to the market / vault / escrow rules of plain actions");
+    mon.assume("GLV pricing / caps are judged by the C45 monitor, not here");
     mon.assume("'without touching any market' is judged on pools, clocks, recorded balances, trade count and funding factor; the buffer revision counter (bumped by no-op commits) is excluded");
     mon.assume("all ATAs exist when an action is closed (the 'ATA not initialised: skip close' path is counted, not judged)");
     let shards = args.scale(32, 256);
@@ -302,7 +395,14 @@ pub fn run(args: &Args) -> Option<i32> {
         let mut sim = Sim::new(args.seed, shard);
         let mut last = vec![];
         for step in 0..steps {
-            let rec = sim.step();
+            // program panics are caught by hostsvm (failed transaction); `guard` only keeps them quiet
+            let rec = match guard(|| sim.step()) {
+                Ok(r) => r,
+                Err(e) => {
+                    m.inconclusive(&format!("harness: step aborted by panic: {e}"));
+                    break;
+                }
+            };
             let c = Ctx { shard, step, sim: &sim };
             check_step(m, &c, &rec, &mut last);
             if m.has_violations() {
@@ -321,5 +421,15 @@ pub fn run(args: &Args) -> Option<i32> {
     mon.require("close_rejected_by_Stranger_pending", 5);
     mon.require("close_rejected_by_Keeper_pending", 5);
     mon.require("escrow_tokens_returned_on_close", 20);
+    for k in ["glv_deposit", "glv_withdrawal", "glv_shift"] {
+        mon.require(&format!("transition_{k}_absent_to_pending"), 50);
+        mon.require(&format!("transition_{k}_pending_to_completed"), 10);
+        mon.require(&format!("transition_{k}_pending_to_cancelled"), 8);
+        mon.require(&format!("transition_{k}_pending_to_absent"), 4);
+        mon.require(&format!("soft_failed_execution_{k}"), 8);
+        mon.require(&format!("reexecution_of_completed_{k}_rejected"), 3);
+        mon.require(&format!("close_rejected_{k}_by_Keeper_pending"), 1);
+    }
+    mon.require("transition_cut_order_absent_to_completed", 30);
     Some(mon.finish())
 }
